@@ -40,7 +40,7 @@ def generic_replay(rp: dict) -> int:
 # proof obligations (if any) only support them.
 LEVELS = {
     "C01": "proof", "C02": "proof", "C03": "proof", "C04": "proof", "C08": "proof", "C09": "proof",
-    "C12": "proof", "C13": "proof", "C14": "proof", "C18": "proof",
-    "C05": "exploration", "C06": "exploration", "C07": "exploration", "C10": "exploration", "C11": "exploration",
-    "C15": "exploration", "C16": "exploration", "C17": "exploration", "C19": "exploration",
+    "C10": "proof", "C12": "proof", "C13": "proof", "C14": "proof", "C15": "proof", "C18": "proof",
+    "C05": "exploration", "C06": "exploration", "C07": "exploration", "C11": "exploration",
+    "C16": "exploration", "C17": "exploration", "C19": "exploration",
 }
